@@ -214,7 +214,7 @@ func (st *ccState) start() {
 			}
 		}
 		s.EnterSUT()
-		cl, err := cfg.p.NewClient(st.conn, cfg.T, cfg.tries, cfg.bufcap, logf)
+		cl, err := cfg.p.NewClient(st.conn, cfg.T, cfg.tries, cfg.bufcap, logf, st.tape.Choose(4))
 		s.LeaveSUT()
 		if err != nil {
 			st.newErr = err
@@ -534,7 +534,13 @@ func (st *ccState) background() {
 
 func (st *ccState) onRead(d dgram, n int) {
 	s := st.s
+	// Judged as it was on the wire: a client that reads a datagram of up to 1500 bytes
+	// (its documented maximum message size) into less room and thereby loses or
+	// damages it is at fault, not the datagram. Larger ones: as cut by the read.
 	b := append([]byte(nil), d.b[:n]...)
+	if len(d.b) <= 1500 {
+		b = append([]byte(nil), d.b...)
+	}
 	r := &rxRec{t: s.Now(), bytes: b, info: st.cfg.p.Inspect(b)}
 	r.seq = s.Ev("rx", -1, int64(r.info.Serial), fmt.Sprintf("%s len=%d xid=%x typ=%d elig=%v", d.tag, n, r.info.Xid, r.info.Typ, r.info.Eligible), nil)
 	st.rx = append(st.rx, r)
